@@ -1268,3 +1268,83 @@ Section Dated.
         else let '(st', xs) := c_run bs f st r in (st', x :: xs)
     end.
 End Dated.
+
+(* ---------------------------------------------------------------- a log whose timestamps carry NO YEAR
+   (SyslogProcessor::process_missing_year, SyslineReader::clear_syslines / remove_sysline / find_sysline_year).
+   The oracle takes the year the parser fills in: dated_y (Some y) line; dated_y None = the filler year that
+   find_sysline (year None) uses in block-zero analysis and in stage 3.  The year is reader-side state of the
+   reverse pass; `tol` = BACKWARDS_TIME_JUMP_MEANS_NEW_YEAR (25 h) in the unit of the oracle's instants. *)
+Section YearLess.
+  Variable dated_y : option Z -> list N -> option Z.
+
+  (* clear_syslines: LRU_cache_disable (both caches cleared), syslines and syslines_by_range emptied,
+     LRU_cache_enable when the caches were on.  Line objects stay in the LineReader. *)
+  Definition c_clear_syslines (st : sr_state) : sr_state :=
+    let st1 := sr_lru_disable st in
+    let st2 := mkSR (s_lr st1) [] [] (s_lru st1) (s_on st1) (s_parse st1) (s_parse_on st1) (s_nid st1) (s_cnt st1) in
+    if s_on st then sr_lru_enable st2 else st2.
+
+  (* remove_sysline(fo): both caches cleared, the entry of `syslines` and ITS range removed *)
+  Definition c_remove_sysline (bs : N) (st : sr_state) (fo : N) : sr_state :=
+    let st1 := sr_lru_disable st in
+    let st2 :=
+      match alookup fo (s_syslines st1) with
+      | Some s =>
+          let rg := match ss_begin bs s, ss_end bs s with
+                    | Some b, Some e => range_cut b (e + 1) (s_range st1)
+                    | _, _ => s_range st1
+                    end in
+          mkSR (s_lr st1) (aremove fo (s_syslines st1)) rg (s_lru st1) (s_on st1) (s_parse st1) (s_parse_on st1)
+               (s_nid st1) (s_cnt st1)
+      | None => st1
+      end in
+    if s_on st then sr_lru_enable st2 else st2.
+
+  (* the loop of process_missing_year: from fo_prev find the message (dated with the current year); if it lies
+     more than tol AFTER the message below it, the year is decremented, the message removed and found again;
+     stop at the begin of the file, at a message before --dt-after, or when the offset does not decrease *)
+  Fixpoint c_year_loop (fuel : nat) (bs : N) (f : file) (tol : Z) (fa : option Z) (st : sr_state) (year : Z)
+                       (fo_prev : N) (prev : option ssl) : sr_state * res Z :=
+    match fuel with
+    | O => (st, OutOfFuel)
+    | S k =>
+        match c_find_sysline (dated_y (Some year)) bs f st fo_prev with
+        | (st, Found (_, s), _) =>
+            match ss_begin bs s with
+            | None => (st, Panic)
+            | Some b =>
+                let jump := match prev with
+                            | Some p => (ss_dt p <? ss_dt s)%Z && (tol <? ss_dt s - ss_dt p)%Z
+                            | None => false
+                            end in
+                if jump then c_year_loop k bs f tol fa (c_remove_sysline bs st b) (year - 1) fo_prev prev
+                else if b <? 1 then (st, Found year)
+                else if dt_before fa (ss_dt s) then (st, Found year)
+                else if fo_prev <=? b - 1 then (st, Found year)
+                else c_year_loop k bs f tol fa st year (b - 1) (Some s)
+            end
+        | (st, Done, _) => (st, Found year)
+        | (st, OutOfFuel, _) => (st, OutOfFuel)
+        | (st, Panic, _) => (st, Panic)
+        end
+    end.
+
+  (* stages 1 (end: disable_drop_data for a streamed file), 2 (process_missing_year) and 3 of exec_syslogprocessor
+     on the reader block-zero analysis left; mtime_year = year of the file's modification time *)
+  Definition c_stream_year (bs : N) (f : file) (tol : Z) (mtime_year : Z) (fa fb : option Z) (plan : list bool)
+                           (st : sr_state) : sr_state * res (list ssl) :=
+    let stream := b_stream (l_blk (s_lr st)) in
+    let st := if stream then sr_set_lr (lr_set_blk (b_disable_drop (l_blk (s_lr st))) (s_lr st)) st else st in
+    let st := c_clear_syslines st in
+    match fileoffset_last (lenN f) with
+    | None => (st, Found [])
+    | Some fl =>
+        match c_year_loop (S (2 * length f)) bs f tol fa st mtime_year fl None with
+        | (st, Found _) => c_stream_win (dated_y None) bs f fa fb (if stream then [] else plan) st
+        | (st, Done) => (st, Done)
+        | (st, OutOfFuel) => (st, OutOfFuel)
+        | (st, Panic) => (st, Panic)
+        end
+    end.
+End YearLess.
+
